@@ -1,6 +1,8 @@
 import IoraModel.Lemmas.Teardown
 import IoraModel.Lemmas.EngineQueue
 import IoraModel.Lemmas.FlushFrames
+import IoraModel.Lemmas.TeardownRoles
+import IoraModel.Lemmas.TeardownRolesFresh
 import IoraModel.Model.TsyncFacts
 import IoraModel.Model.TeardownFacts
 /-!
@@ -403,5 +405,110 @@ example : let s := EngineQueue.run EngineQueue.init (demoQueue.take 12)
   decide
 example : let s := EngineQueue.run EngineQueue.init demoQueue
     s.phase = .loop ∧ s.closed = false ∧ s.fulfilled 5 = 1 := by decide
+
+/-! ## thread ROLES that can originate a callback (extension round: the TimerService thread, seed C05-d) -/
+
+section Roles
+open Iora.TeardownRoles Iora.Gen.TeardownSkel
+
+/-- callback-capable thread roles of an engine and what each may do, as the inventory regenerated from `tcp_engine.hpp` /
+`udp_engine.hpp` shows it (every call site of `_cbs.on*` / `err()` with its member function, exception arm or not, and the thread
+roles that function is reachable from over the class-internal call graph; tools/tr_teardownskel.py):
+* every TimerService lambda of TcpEngine is a single call of one of the three handlers, each handler is the single statement
+  `enqueue(Command::close(sid, …, origin));` with the result discarded, and the timer role reaches exactly those handlers, both
+  `enqueue` overloads and `setLastFatal` — in particular NOT `err()`, `closeNow` or any function with a `_cbs.on*` site other than
+  the exception arm of `enqueue` (which is past the closed test);
+* every other call site is reachable from the I/O thread, or from the API caller inside `start()` (`err()`/`initTls`), only;
+  the public entry points other than `start()` reach a callback only through the exception arm of `enqueue`;
+* `shutdownDrain` does not cancel the session timers (the model keeps them armed across `stop()`);
+* UdpEngine has no TimerService role at all; on the API role it reports through `error()` inside `start()` and inside
+  `addListener(tls ≠ None)` (argument error, synchronously in the caller's own call);
+* the one `std::async` lambda (DNS lookup) touches no member of the engine;
+* because the timer role may be inside `enqueue()` at ANY time — also while the application restarts the engine, which the
+  "callers do not enqueue during start()" contract of `start()` does not cover — `start()` publishes the fresh `_eventFd` and reopens
+  the queue in ONE `_cmdMutex` critical section and writes neither outside it, and `cleanupStartFail` closes the descriptor under
+  that mutex (repair FC05c; the model's `enqueue` is atomic with respect to `apiStart` on that ground). -/
+theorem roles_inventory_conforms :
+    tcpTimerHandlers.map (·.1) = ["handleConnectTimeout", "handleHandshakeTimeout", "handleWriteStallTimeout"] ∧
+    tcpTimerHandlers.all (fun h => h.2.2 == "enqueue-ignored") = true ∧
+    tcpTimerRoleFns = ["enqueue", "enqueue#1", "handleConnectTimeout", "handleHandshakeTimeout", "handleWriteStallTimeout", "setLastFatal"] ∧
+    tcpCallbackSites.all (fun x => [["io"], ["api"], ["io", "api"], ["timer", "api"]].contains x.2.2.2) = true ∧
+    tcpCallbackSites.all (fun x => !timerSiteOutsideEnqueue x) = true ∧
+    (tcpCallbackSites.filter (fun x => x.2.2.2 == ["api"] || x.2.2.2 == ["io", "api"])).map (·.1) = ["start", "err", "initTls"] ∧
+    tcpApiCallbackEntries.all (fun e => e.1 == "start" || e.2 == "enqueue#1:catch enqueue:catch") = true ∧
+    tcpAsyncLambdas ≤ 1 ∧
+    udpHasNoTimerRole = true ∧ udpApiCallbackEntries = [("addListener", "error:body"), ("start", "error:body")] ∧
+    udpCallbackSites.all (fun x => x.2.2.2 == ["io"] || (x.1 == "error" && x.2.2.2 == ["io", "api"])) = true ∧ udpAsyncLambdas = 0 ∧
+    genCfg = { timerCbOnRefusal := false, enqueueCbOnException := true, drainCancelsTimers := false } ∧
+    tcpStartLockedStmts = ["_eventFd=efd", "_cmdsClosed=false"] ∧ tcpStartUnlockedQueueWrites = 0 ∧
+    tcpStartFailClosesEventFdUnderLock = true := by
+  refine ⟨by decide, by decide, by decide, by decide, by decide, by decide, by decide, by decide, by decide, by decide, by decide,
+    by decide, by decide, by decide, by decide, by decide⟩
+
+/-- **T5 over ALL thread roles (I/O thread, TimerService thread, API caller).** Every schedule of the three roles from a freshly
+constructed engine (any number of start/stop cycles, any commands, any socket events, any timer left armed by the shutdown drain
+and expiring at any later point, `enqueue` throwing or not): once a `stop()` has RETURNED to its non-callback caller with the I/O
+thread terminated, NO later step of ANY role runs a user callback — and the state stays that way — until the application calls
+`start()` again.  The model is instantiated with the regenerated inventory (`genCfg`): the statement fails to build when a timer
+handler reaches a callback outside `enqueue`'s exception arm. -/
+theorem T5_no_callback_after_stop_any_role (steps later : List TeardownRoles.Step)
+    (hq : (TeardownRoles.run genCfg {} steps).quiet = true) (hs : later.all (fun st => !isStart st) = true) :
+    (TeardownRoles.run genCfg (TeardownRoles.run genCfg {} steps) later).log = (TeardownRoles.run genCfg {} steps).log ∧
+    (TeardownRoles.run genCfg (TeardownRoles.run genCfg {} steps) later).quiet = true :=
+  quiet_run_silent genCfg (by decide) later _ (inv_reach genCfg _ ⟨steps, rfl⟩) hq hs
+
+/-- the hypotheses are satisfiable: stop() with a TLS connect pending, whose connect-timeout timer is still armed afterwards and then
+expires — twice the queue refuses, nothing is logged after the drain's close callback -/
+example : (TeardownRoles.run genCfg {} witnessPrefix).quiet = true ∧ (TeardownRoles.run genCfg {} witnessPrefix).timers = [(1, .connect)] ∧
+    (TeardownRoles.run genCfg {} (witnessPrefix ++ [.timerFire 0 false, .apiConnect false true, .apiStop false])).log = [(.io, .close)] := by decide
+
+/-- … for every configuration whose timer handlers stay silent on a refused enqueue (whatever the other two source facts are) -/
+theorem T5_any_silent_timer (cfg : Cfg) (hT : cfg.timerCbOnRefusal = false) (s : TeardownRoles.State) (hr : TeardownRoles.Reach cfg s)
+    (hq : s.quiet = true) (st : TeardownRoles.Step) (hs : isStart st = false) :
+    (TeardownRoles.step cfg s st).log = s.log ∧ (TeardownRoles.step cfg s st).quiet = true :=
+  quiet_step_silent cfg hT s (inv_reach cfg s hr) hq st hs
+
+/-- the claim "no role runs a callback after stop() returned" for a given reading of the source -/
+def T5_roles_statement (cfg : Cfg) : Prop :=
+  ∀ s, TeardownRoles.Reach cfg s → s.quiet = true → ∀ st, isStart st = false → (TeardownRoles.step cfg s st).log = s.log
+
+/-- **Witness (seed C05-d).** A TimerService handler that reports a refused enqueue through a user callback REFUTES the statement:
+start; connect; the Connect command leaves its connect-timeout timer armed; stop() — the drain closes the session but not its
+timer, closes the queue, the join returns —; the timer expires: `onError` runs on the timer thread after stop() has returned. -/
+theorem T5_roles_refuted_by_reporting_timer (cfg : Cfg) (hT : cfg.timerCbOnRefusal = true) (hd : cfg.drainCancelsTimers = false) :
+    ¬ T5_roles_statement cfg := by
+  intro h
+  have a := witness_prefix_quiet cfg hd
+  have b := witness_late_callback cfg hd hT
+  have c := h _ ⟨witnessPrefix, rfl⟩ a.1 (.timerFire 0 false) rfl
+  rw [b, a.2.2.1] at c
+  exact absurd c (by decide)
+
+/-- **Role table.** Any state, any step: the log grows only by callbacks whose role is the role of the thread that took the step
+(a timer-role step never logs an `io` callback, …), and an I/O-role step logs nothing once the I/O thread has terminated. -/
+theorem T5_callbacks_by_role (cfg : Cfg) (s : TeardownRoles.State) (st : TeardownRoles.Step) :
+    ∃ l, (TeardownRoles.step cfg s st).log = s.log ++ l ∧ (∀ e ∈ l, e.1 = roleOf st) ∧
+      (roleOf st = .io → s.ioAlive = false → l = []) :=
+  step_log_role cfg s st
+
+/-- a timer that expires late is harmless on the I/O thread too: the Close arm of `process()` drops a timer-originated close whose
+session is gone or whose condition no longer holds (connect completed / handshake done / write queue drained) -/
+theorem T5_stale_timer_close_dropped (s : TeardownRoles.State) (sid : Nat) (k : TimerKind) (arm : Bool)
+    (h : match findSess s sid with | none => True | some x => stale x (some k) = true) :
+    dispatch s (.close sid (some k)) arm = s :=
+  stale_timer_close_dropped s sid k arm h
+example : dispatch { sessions := [{ sid := 3, connectPending := false }] } (.close 3 (some .connect)) false =
+    { sessions := [{ sid := 3, connectPending := false }] } := by
+  exact stale_timer_close_dropped _ 3 .connect false (by simp [findSess, stale])
+
+/-- **Session ids are never reused** (why a stale timer of a previous start/stop epoch cannot close a session of a later one): in every
+reachable state of the role model the ids of the open sessions and of the queued Connect commands are pairwise distinct and all below
+`_nextSessionId`, which `start()` never resets — so an id a timer was armed for names that one session or, once it is closed, none. -/
+theorem T5_session_ids_never_reused (cfg : Cfg) (s : TeardownRoles.State) (hr : TeardownRoles.Reach cfg s) :
+    (ids s).Nodup ∧ ∀ i ∈ ids s, i < s.nextSid :=
+  fresh_reach cfg s hr
+example : ids (TeardownRoles.run genCfg {} [.apiStart false, .apiConnect true false, .apiConnect false false, .ioProcess true]) = [1, 2] := by decide
+
+end Roles
 
 end Iora.C05
